@@ -143,7 +143,7 @@ CHECKS.update({
    design_ref='DESIGN.md 5 C03', note=NOTE_STD + ' The end-to-end statement is covered by differential testing against the by-construction meaning; only compile-stage facts are theorems.',
    technique='Coq lemmas on the compile stage (finite table sweeps lifted by lemma, token-wise characterisation of the substitution pass, label-offset arithmetic) + per-run two-stage differential correspondence against an independent meaning function'),
  'C08': dict(
-   text=('PARTIAL. Proved on the literal model of the expander state machine (model/ForExpand.v), for every stream, label list and count: the body is sent count times with the counter replaced by 1..count (nothing for count 0) and all other tokens kept; '
+   text=('PARTIAL. Proved on the literal model of the expander state machine (model/ForExpand.v): ONE PASS as a whole (C08_one_pass_partial) - for any lines in front of the first block, its header, a body of arbitrary lines with properly nested inner blocks, the closing ROF and the rest of the stream, the pass ends and sends exactly the front lines (labels re-attached), the block written out count times with the block labels in place, and the rest unchanged. Also, for every stream, label list and count: the body is sent count times with the counter replaced by 1..count (nothing for count 0) and all other tokens kept; '
          'from the ROF line on (also when it is the last line and lacks a newline), whatever state was reached, exactly the block is sent - first iteration with the labels written before the counter standing in front of the body line found for them, iterations 2..count plain, with a count below one only the labels - and then the rest of the program is copied unchanged up to EOF; '
          'on the FOR line the count is the value of the expression over the pre-scanned EQU symbols and the predefined constants, the name before FOR is the counter, earlier names are block labels, which keep their names; their place is the first line of the body itself that is an instruction or the header of a nested block; a colon after a body label is dropped. '
          'That a pass and the pass driver always end is part of C05. NOT proved: collection of the body with nesting depth, copying of the lines before the block, the repeat-until-no-FOR driver and the composition into '
